@@ -132,3 +132,283 @@ theorem readSections_nil (cfg : Cfg) (m : RawModule) : readSections cfg [] m = .
   rw [readSections]; rfl
 
 end W2c2Verif.Lemmas.Reader
+
+namespace W2c2Verif.Lemmas.Reader
+open W2c2Verif.Model W2c2Verif.Model.Reader W2c2Verif.Spec.Binary
+open W2c2Verif.Gen
+
+/-- `wasmReadName` on a name written with any padding of its length field. -/
+theorem name_enc (e : Nat) {nm nsz : List UInt8} (h : ULeb 32 nm.length nsz) (tail : Bytes) :
+    name e (nsz ++ (nm ++ tail)) = .ok (cstr nm, tail) := by
+  unfold name
+  rw [bind_eq_of_ok (u32_uleb e h (nm ++ tail))]
+  have hrun : takeExact cstr e nm.length (nm ++ tail) =
+      if (nm ++ tail).length < nm.length then .err e
+      else .ok (cstr ((nm ++ tail).take nm.length), (nm ++ tail).drop nm.length) := rfl
+  rw [hrun, if_neg (by rw [List.length_append]; omega), List.take_left' rfl, List.drop_left' rfl]
+
+theorem skip_run (n : Nat) (bs : Bytes) : skip n bs = .ok ((), bs.drop n) := rfl
+
+/-- A custom section that is not the name section (or any custom section without `-g`) is skipped: the
+    module is unchanged except, for `.debug_*` names, the list of debug sections. -/
+theorem readSection_custom (cfg : Cfg) (m : RawModule) {nm content b : List UInt8} (rest : Bytes)
+    (henc : EncItem (.custom nm content) b)
+    (hno : ¬ (cfg.debug = true ∧ cstr nm = strBytes Reader.nameSectionName)) :
+    ∃ m', readSection cfg m (b ++ rest) = .ok (m', rest) ∧ Sim m m' := by
+  cases henc with
+  | @custom _ _ nsz sz hn hsz =>
+    have hassoc : (0 :: (sz ++ (nsz ++ (nm ++ content)))) ++ rest = 0 :: (sz ++ (nsz ++ (nm ++ (content ++ rest)))) := by
+      simp [List.append_assoc]
+    rw [hassoc, readSection_run cfg m 0 hsz]
+    have hrd : Reader.sectionReaders[(0 : UInt8).toNat]? = some "wasmReadCustomSection" := rfl
+    rw [hrd]
+    dsimp only
+    have hsr : sectionReader cfg "wasmReadCustomSection" (nsz ++ (nm ++ content)).length m =
+        customSection cfg (nsz ++ (nm ++ content)).length m := rfl
+    rw [hsr]
+    have hlt := hsz.lt
+    -- run the custom-section reader
+    have hsize : ((nsz ++ (nm ++ content)).length + u32Max -
+        ((nsz ++ (nm ++ (content ++ rest))).length - (content ++ rest).length) % u32Max) % u32Max = content.length := by
+      simp only [List.length_append, u32Max] at hlt ⊢
+      omega
+    have hdrop : (content ++ rest).drop content.length = rest := List.drop_left' rfl
+    have hcs : ∃ m', customSection cfg (nsz ++ (nm ++ content)).length m (nsz ++ (nm ++ (content ++ rest))) = .ok (m', rest) ∧ Sim m m' := by
+      unfold customSection
+      rw [remaining_bind, bind_eq_of_ok (name_enc _ hn (content ++ rest)), remaining_bind]
+      rw [hsize, ite_run]
+      by_cases hp : (strBytes Reader.debugSectionNamePrefix).isPrefixOf (cstr nm) = true
+      · rw [if_pos hp, remaining_bind, bind_eq_of_ok (skip_run _ _), pure_run, hdrop]
+        exact ⟨_, rfl, ⟨m.length, _, rfl⟩⟩
+      · rw [if_neg hp, ite_run, if_neg hno, bind_eq_of_ok (skip_run _ _), pure_run, hdrop]
+        exact ⟨m, rfl, Sim.refl m⟩
+    obtain ⟨m', hm', hsim⟩ := hcs
+    rw [hm']
+    dsimp only
+    have : ¬ (rest.length + (nsz ++ (nm ++ content)).length ≠ (nsz ++ (nm ++ (content ++ rest))).length) := by
+      simp only [List.length_append]; omega
+    rw [if_neg this]
+    exact ⟨m', rfl, hsim⟩
+
+end W2c2Verif.Lemmas.Reader
+
+namespace W2c2Verif.Lemmas.Reader
+open W2c2Verif.Model W2c2Verif.Model.Reader W2c2Verif.Spec.Binary
+open W2c2Verif.Gen
+
+theorem encItem_ne_nil {it : Item} {b : List UInt8} (h : EncItem it b) : b ≠ [] := by
+  cases h <;> simp
+
+/-- The same non-custom section, framed with two different size encodings and followed by different bytes,
+    read in two `Sim`-related states: if both are accepted, both consume exactly the section and the results
+    are `Sim`-related. -/
+theorem readSection_sec_agree (cfg : Cfg) {id : UInt8} {payload b₁ b₂ : List UInt8} (rest₁ rest₂ : Bytes)
+    (h₁ : EncItem (.sec id payload) b₁) (h₂ : EncItem (.sec id payload) b₂)
+    {m₁ m₂ m₁' m₂' : RawModule} {r₁ r₂ : Bytes} (hs : Sim m₁ m₂)
+    (hl₁ : (b₁ ++ rest₁).length ≤ m₁.length) (hl₂ : (b₂ ++ rest₂).length ≤ m₂.length)
+    (hr₁ : readSection cfg m₁ (b₁ ++ rest₁) = .ok (m₁', r₁)) (hr₂ : readSection cfg m₂ (b₂ ++ rest₂) = .ok (m₂', r₂)) :
+    r₁ = rest₁ ∧ r₂ = rest₂ ∧ Sim m₁' m₂' := by
+  cases h₁ with
+  | @sec _ _ sz₁ hid hsz₁ =>
+  cases h₂ with
+  | @sec _ _ sz₂ _ hsz₂ =>
+    have ha₁ : (id :: (sz₁ ++ payload)) ++ rest₁ = id :: (sz₁ ++ (payload ++ rest₁)) := by simp [List.append_assoc]
+    have ha₂ : (id :: (sz₂ ++ payload)) ++ rest₂ = id :: (sz₂ ++ (payload ++ rest₂)) := by simp [List.append_assoc]
+    rw [ha₁] at hr₁ hl₁
+    rw [ha₂] at hr₂ hl₂
+    rw [readSection_run cfg m₁ id hsz₁] at hr₁
+    rw [readSection_run cfg m₂ id hsz₂] at hr₂
+    have hX₁ : (payload ++ rest₁).length ≤ m₁.length := by
+      simp only [List.length_cons, List.length_append] at hl₁ ⊢; omega
+    have hX₂ : (payload ++ rest₂).length ≤ m₂.length := by
+      simp only [List.length_cons, List.length_append] at hl₂ ⊢; omega
+    cases hrd : Reader.sectionReaders[id.toNat]? with
+    | none =>
+      rw [hrd] at hr₁ hr₂
+      dsimp only at hr₁ hr₂
+      cases hr₁; cases hr₂
+      exact ⟨List.drop_left' rfl, List.drop_left' rfl, hs⟩
+    | some rd =>
+      rw [hrd] at hr₁ hr₂
+      dsimp only at hr₁ hr₂
+      have hidlt : id.toNat < 13 := by
+        have := (List.getElem?_eq_some_iff.1 hrd).1
+        exact this
+      have hne : rd ≠ "wasmReadCustomSection" := by
+        intro hc
+        rw [hc] at hrd
+        have := (reader_custom_iff id.toNat hidlt).1 hrd
+        apply hid
+        exact UInt8.toNat_inj.1 (by simpa using this)
+      have hst := sectionReader_secStable cfg rd payload.length hne
+      cases hs₁ : sectionReader cfg rd payload.length m₁ (payload ++ rest₁) with
+      | err c => rw [hs₁] at hr₁; cases hr₁
+      | ub u => rw [hs₁] at hr₁; cases hr₁
+      | ok x₁ =>
+        obtain ⟨a₁, q₁⟩ := x₁
+        rw [hs₁] at hr₁
+        dsimp only at hr₁
+        by_cases hc₁ : q₁.length + payload.length ≠ (payload ++ rest₁).length
+        · rw [if_pos hc₁] at hr₁; cases hr₁
+        · rw [if_neg hc₁] at hr₁
+          cases hr₁
+          cases hs₂ : sectionReader cfg rd payload.length m₂ (payload ++ rest₂) with
+          | err c => rw [hs₂] at hr₂; cases hr₂
+          | ub u => rw [hs₂] at hr₂; cases hr₂
+          | ok x₂ =>
+            obtain ⟨a₂, q₂⟩ := x₂
+            rw [hs₂] at hr₂
+            dsimp only at hr₂
+            by_cases hc₂ : q₂.length + payload.length ≠ (payload ++ rest₂).length
+            · rw [if_pos hc₂] at hr₂; cases hr₂
+            · rw [if_neg hc₂] at hr₂
+              cases hr₂
+              -- both readers consumed exactly the payload
+              obtain ⟨pre₁, e₁, k₁⟩ := hst m₁ m₂ _ _ _ hs hs₁ hX₁
+              obtain ⟨pre₂, e₂, k₂⟩ := hst m₂ m₁ _ _ _ hs.symm hs₂ hX₂
+              have hlen₁ : pre₁.length = payload.length := by
+                have := congrArg List.length e₁
+                simp only [List.length_append] at this hc₁; omega
+              have hlen₂ : pre₂.length = payload.length := by
+                have := congrArg List.length e₂
+                simp only [List.length_append] at this hc₂; omega
+              obtain ⟨hp₁, hq₁⟩ := List.append_inj e₁ hlen₁.symm
+              obtain ⟨hp₂, hq₂⟩ := List.append_inj e₂ hlen₂.symm
+              subst hp₁ hq₁
+              have hp₂' : pre₂ = payload := hp₂.symm
+              subst hp₂'
+              subst hq₂
+              refine ⟨rfl, rfl, ?_⟩
+              by_cases hcase : rest₁ ≠ [] ∨ rest₂ = rest₁
+              · obtain ⟨m', hm', hsim⟩ := k₁ rest₂ hcase hX₂
+                rw [hs₂] at hm'
+                cases hm'
+                exact hsim
+              · have hcase' : rest₂ ≠ [] ∨ rest₁ = rest₂ := by
+                  left
+                  intro h2
+                  apply hcase
+                  by_cases h1 : rest₁ = []
+                  · right; rw [h1, h2]
+                  · left; exact h1
+                obtain ⟨m', hm', hsim⟩ := k₂ rest₁ hcase' hX₁
+                rw [hs₁] at hm'
+                cases hm'
+                exact hsim.symm
+
+/-- **Framing invariance of the module loop**: two framings of the same sequence of non-custom sections —
+    custom sections (other than a name section read under `-g`) inserted anywhere, every size field padded in
+    any way — that are both accepted yield the same module up to `Sim`. -/
+theorem readSections_framing (cfg : Cfg) :
+    ∀ (n : Nat) (items₁ items₂ : List Item) (bs₁ bs₂ : Bytes) (m₁ m₂ r₁ r₂ : RawModule),
+      items₁.length + items₂.length ≤ n →
+      EncStream items₁ bs₁ → EncStream items₂ bs₂ → view items₁ = view items₂ →
+      (∀ nm ∈ customNames items₁, ¬ (cfg.debug = true ∧ cstr nm = strBytes Reader.nameSectionName)) →
+      (∀ nm ∈ customNames items₂, ¬ (cfg.debug = true ∧ cstr nm = strBytes Reader.nameSectionName)) →
+      Sim m₁ m₂ → bs₁.length ≤ m₁.length → bs₂.length ≤ m₂.length →
+      readSections cfg bs₁ m₁ = .ok r₁ → readSections cfg bs₂ m₂ = .ok r₂ → Sim r₁ r₂ := by
+  intro n
+  induction n with
+  | zero =>
+    intro items₁ items₂ bs₁ bs₂ m₁ m₂ r₁ r₂ hn e₁ e₂ _ _ _ hs _ _ h₁ h₂
+    have i1 : items₁ = [] := List.eq_nil_of_length_eq_zero (by omega)
+    have i2 : items₂ = [] := List.eq_nil_of_length_eq_zero (by omega)
+    subst i1 i2
+    cases e₁; cases e₂
+    rw [readSections_nil] at h₁ h₂
+    cases h₁; cases h₂
+    exact hs
+  | succ n ih =>
+    intro items₁ items₂ bs₁ bs₂ m₁ m₂ r₁ r₂ hn e₁ e₂ hv hc₁ hc₂ hs hl₁ hl₂ h₁ h₂
+    -- a leading custom section on the left
+    have left_custom : ∀ (nm content : List UInt8) (t₁ : List Item), items₁ = .custom nm content :: t₁ → Sim r₁ r₂ := by
+      intro nm content t₁ hi
+      subst hi
+      cases e₁ with
+      | @cons _ _ b bt hb ht =>
+        have hne : b ++ bt ≠ [] := by
+          intro hc; exact encItem_ne_nil hb (List.append_eq_nil_iff.1 hc).1
+        rw [readSections_cons cfg _ _ hne] at h₁
+        obtain ⟨m', hm', hsim⟩ := readSection_custom cfg m₁ bt hb (hc₁ nm (by simp [customNames]))
+        rw [hm'] at h₁
+        dsimp only at h₁
+        have hlen := readSection_len cfg m₁ _ _ _ hm'
+        refine ih t₁ items₂ bt bs₂ m' m₂ r₁ r₂ (by simp only [List.length_cons] at hn; omega) ht e₂
+          (by simpa [view] using hv) (fun x hx => hc₁ x (by simp [customNames, hx])) hc₂
+          (hsim.symm.trans hs) ?_ hl₂ h₁ h₂
+        rw [hlen]; rw [List.length_append] at hl₁; omega
+    have right_custom : ∀ (nm content : List UInt8) (t₂ : List Item), items₂ = .custom nm content :: t₂ → Sim r₁ r₂ := by
+      intro nm content t₂ hi
+      subst hi
+      cases e₂ with
+      | @cons _ _ b bt hb ht =>
+        have hne : b ++ bt ≠ [] := by
+          intro hc; exact encItem_ne_nil hb (List.append_eq_nil_iff.1 hc).1
+        rw [readSections_cons cfg _ _ hne] at h₂
+        obtain ⟨m', hm', hsim⟩ := readSection_custom cfg m₂ bt hb (hc₂ nm (by simp [customNames]))
+        rw [hm'] at h₂
+        dsimp only at h₂
+        have hlen := readSection_len cfg m₂ _ _ _ hm'
+        refine ih items₁ t₂ bs₁ bt m₁ m' r₁ r₂ (by simp only [List.length_cons] at hn; omega) e₁ ht
+          (by simpa [view] using hv) hc₁ (fun x hx => hc₂ x (by simp [customNames, hx]))
+          (hs.trans hsim) hl₁ ?_ h₁ h₂
+        rw [hlen]; rw [List.length_append] at hl₂; omega
+    cases items₁ with
+    | nil =>
+      cases items₂ with
+      | nil =>
+        cases e₁; cases e₂
+        rw [readSections_nil] at h₁ h₂
+        cases h₁; cases h₂
+        exact hs
+      | cons it₂ t₂ =>
+        cases it₂ with
+        | custom nm content => exact right_custom nm content t₂ rfl
+        | sec id p => simp [view] at hv
+    | cons it₁ t₁ =>
+      cases it₁ with
+      | custom nm content => exact left_custom nm content t₁ rfl
+      | sec id₁ p₁ =>
+        cases items₂ with
+        | nil => simp [view] at hv
+        | cons it₂ t₂ =>
+          cases it₂ with
+          | custom nm content => exact right_custom nm content t₂ rfl
+          | sec id₂ p₂ =>
+            simp only [view, List.cons.injEq, Prod.mk.injEq] at hv
+            obtain ⟨⟨hid, hp⟩, hvt⟩ := hv
+            subst hid hp
+            cases e₁ with
+            | @cons _ _ b₁ bt₁ hb₁ ht₁ =>
+            cases e₂ with
+            | @cons _ _ b₂ bt₂ hb₂ ht₂ =>
+              have hne₁ : b₁ ++ bt₁ ≠ [] := by
+                intro hc; exact encItem_ne_nil hb₁ (List.append_eq_nil_iff.1 hc).1
+              have hne₂ : b₂ ++ bt₂ ≠ [] := by
+                intro hc; exact encItem_ne_nil hb₂ (List.append_eq_nil_iff.1 hc).1
+              rw [readSections_cons cfg _ _ hne₁] at h₁
+              rw [readSections_cons cfg _ _ hne₂] at h₂
+              cases hr₁ : readSection cfg m₁ (b₁ ++ bt₁) with
+              | err c => rw [hr₁] at h₁; cases h₁
+              | ub u => rw [hr₁] at h₁; cases h₁
+              | ok x₁ =>
+                obtain ⟨m₁', q₁⟩ := x₁
+                cases hr₂ : readSection cfg m₂ (b₂ ++ bt₂) with
+                | err c => rw [hr₂] at h₂; cases h₂
+                | ub u => rw [hr₂] at h₂; cases h₂
+                | ok x₂ =>
+                  obtain ⟨m₂', q₂⟩ := x₂
+                  rw [hr₁] at h₁
+                  rw [hr₂] at h₂
+                  dsimp only at h₁ h₂
+                  obtain ⟨hq₁, hq₂, hsim⟩ := readSection_sec_agree cfg bt₁ bt₂ hb₁ hb₂ hs hl₁ hl₂ hr₁ hr₂
+                  subst hq₁ hq₂
+                  have hlen₁ := readSection_len cfg m₁ _ _ _ hr₁
+                  have hlen₂ := readSection_len cfg m₂ _ _ _ hr₂
+                  refine ih t₁ t₂ q₁ q₂ m₁' m₂' r₁ r₂ (by simp only [List.length_cons] at hn; omega) ht₁ ht₂ hvt
+                    (fun x hx => hc₁ x (by simpa [customNames] using hx))
+                    (fun x hx => hc₂ x (by simpa [customNames] using hx)) hsim ?_ ?_ h₁ h₂
+                  · rw [hlen₁]; rw [List.length_append] at hl₁; omega
+                  · rw [hlen₂]; rw [List.length_append] at hl₂; omega
+
+end W2c2Verif.Lemmas.Reader
